@@ -85,7 +85,7 @@ fn main() {
     let max_len = ctx.pick(3usize, 6usize);
     let instances = 3usize;
     ctx.set_rule(
-        "cases = (registry entry, fitted instance 0..2 with different data seeds / feature counts / hyper-parameters); registry = 35 entries (28 + single-member MultiTargetModel + one- / two-member MultiClassModel + 5 exact-decision-boundary instances: linear C-SVC on point-symmetric integer data with pool rows on the hyperplane, one-class SVM with rho set to a pool row's decision value, logistic regression with the threshold set to a pool row's probability, k-means with pool rows equidistant from two centroids, decision tree with pool rows exactly on split values; exactness is checked at run time and counted as rows_exactly_on_decision_boundary) covering every predictor type of the workspace (k-means, GMM, OLS, isotonic, Tweedie, \
+        "cases = (registry entry, fitted instance 0..2 with different data seeds / feature counts / hyper-parameters); registry = 37 entries (28 + single-member MultiTargetModel + one- / two-member MultiClassModel + Platt with prescribed calibrated decision values spanning [-110, 1e4] + MultiClassModel with nearly tied / all-unconfident members + 5 exact-decision-boundary instances: linear C-SVC on point-symmetric integer data with pool rows on the hyperplane, one-class SVM with rho set to a pool row's decision value, logistic regression with the threshold set to a pool row's probability, k-means with pool rows equidistant from two centroids, decision tree with pool rows exactly on split values; exactness is checked at run time and counted as rows_exactly_on_decision_boundary) covering every predictor type of the workspace (k-means, GMM, OLS, isotonic, Tweedie, \
          elastic net, multi-task elastic net, PLS regression / canonical / CCA, logistic binary / multinomial, SVM C-bool gaussian, C-bool linear / polynomial, probability, regression \
          linear / gaussian, one-class, decision tree, Gaussian NB, multinomial NB, FTRL, PCA, FastICA, MultiTargetModel, MultiClassModel, Platt over a linear scorer and over an SVM); \
          per case: query pool of 6 rows (2 training rows, a duplicate of the first, an off-data midpoint, an extreme row, a third training row) x EVERY ordered selection \
@@ -102,7 +102,7 @@ fn main() {
     ctx.assume("float cells whose operand magnitude S reaches the largest finite value of the model's float type (f32::MAX for f32 models) and where one of the two compared values is not finite are indeterminate: an intermediate sum may overflow (to inf, or to inf - inf = NaN across the lanes of the unrolled dot) in one summation order and not in another (seen: OLS / elastic net f32, p = 17 / 33, on the row of alternating +-f32::MAX/2)");
     ctx.assume("dataset / owned forms must hand back records with the same shape, strides and bit pattern (view form: the same buffer)");
     ctx.assume("documented panic: predict_inplace with a target of n+1 or n-1 rows must panic with the message documented in the assert ('The number of data points must match the number of output targets.' / '... memberships.' for k-means) and must not have written into the target");
-    ctx.assume("MultiTargetModel: column j bit-identical to member j's own prediction of the same batch; MultiClassModel: returned label belongs to a member whose probability (computed by that member on the same batch) is maximal, any tied member accepted; Platt: output in [0,1], |output - 1/(1+exp(A f + B))| <= 1e-6 (implementation evaluates the sigmoid in f32; A, B read from the model's Debug form, f from the inner model on the same batch), non-strictly monotone in f over all ordered pairs of pool rows");
+    ctx.assume("MultiTargetModel: column j bit-identical to member j's own prediction of the same batch; MultiClassModel: returned label belongs to a member whose probability (computed by that member on the same batch) is maximal, any tied member accepted; Platt and Svm<_, Pr> (definitional oracle; A, B read from the model's Debug form, f = inner model / weighted_sum - rho on the same batch, t = A f + B): output in [0,1]; for t >= 0 compared in log space, |ln p - (-softplus(t))| <= 4 eps32 (1 + |t|); for t < 0 |p - exact| <= 4 eps32; where the exact value is below the smallest normal f32 the output must be <= 2 * that; order over all pairs of a batch: t_i < t_j => p_i >= p_j, and p_i > p_j strictly wherever the exact values differ by more than 16 eps32 (relative on the low side, absolute on the high side)");
     ctx.assume("Platt and FastICA implement PredictInplace for owned arrays only (trait bounds), so the three view forms do not exist for them; all four layouts are still realised with owned arrays");
     ctx.assume("exact-boundary instances: labels compared exactly with no indeterminate margin; a pool row counts as on the boundary only if the harness recomputes its decision value / tie from the model's public parameters and finds exact equality (rho == 0 and weighted_sum == 0; probability == threshold; equal squared distances; feature == split value)");
     ctx.assume("large family (21 predictors, f64 and, where the type is generic, f32): one batch of n = 1025 (quick, thorough) and 4097 (thorough) distinct rows (training rows + constant-LCG offsets; p = 17 / 33 for the linear / logistic / FTRL / PCA members) in 5 layouts (standard, column-major owned, transposed view of a feature-major array, reversed-row view of a reversed copy, every second row of a larger array whose filler rows are NaN) through 10 forms (the pool-family forms plus predict_inplace on the view); oracle: every (layout, form) output == the standard-layout predict(&Array2) output (labels exact, floats within the same 2(p+2) eps S, eps = 2^-23 for f32 models), signature <kind>.layout_dependence, and rows {0, 1, 1023, 1024, n-1} (quick) / all rows (thorough) of the standard-layout output == the row predicted alone");
